@@ -43,6 +43,12 @@ pub fn dispatch(req: &Value) -> Value {
         "relations" => op_relations(req),
         "total" => op_total(req),
         "ext" => op_ext(req),
+        "codec" => op_codec(req),
+        "codec_parse" => op_codec_parse(req),
+        "pgp" => match debian_control::pgp::strip_pgp_signature(&s(req, "s")) {
+            Ok((p, sig)) => json!({"ok": true, "payload": p, "sig": sig}),
+            Err(e) => json!({"ok": false, "err": format!("{:?}", e)}),
+        },
         other => json!({"error": format!("unknown op {}", other)}),
     }
 }
@@ -227,5 +233,96 @@ fn op_ext(req: &Value) -> Value {
             match (a, b) { (Ok(a), Ok(b)) => json!({"ok": true, "cmp": match a.cmp(&b) { std::cmp::Ordering::Less => -1, std::cmp::Ordering::Equal => 0, std::cmp::Ordering::Greater => 1 }}), _ => json!({"ok": false}) }
         }
         other => json!({"error": format!("unknown ext fn {}", other)}),
+    }
+}
+
+fn js(v: &Value) -> String { v.as_str().unwrap_or("").to_string() }
+fn jopt(v: &Value) -> Option<String> { if v.is_null() { None } else { Some(js(v)) } }
+fn prio(v: &Value) -> debian_control::fields::Priority {
+    use debian_control::fields::Priority::*;
+    match v.as_str().unwrap_or("") { "Required" => Required, "Important" => Important, "Standard" => Standard, "Optional" => Optional, _ => Extra }
+}
+macro_rules! rt {
+    ($v:expr, $ty:ty) => {{
+        let v: $ty = $v;
+        let t = v.to_string();
+        match <$ty as FromStr>::from_str(&t) {
+            Ok(w) => json!({"text": t, "ok": true, "eq": w == v, "text2": w.to_string()}),
+            Err(e) => json!({"text": t, "ok": false, "err": format!("{:?}", e)}),
+        }
+    }};
+}
+
+/// C18: build a value of a codec type from its JSON description, print it, parse the text, compare
+fn op_codec(req: &Value) -> Value {
+    use debian_control as dc;
+    let v = &req["v"];
+    match req["type"].as_str().unwrap_or("") {
+        "Priority" => rt!(prio(&v["variant"]), dc::fields::Priority),
+        "MultiArch" => { use dc::fields::MultiArch::*; rt!(match js(&v["variant"]).as_str() { "Same" => Same, "Foreign" => Foreign, "No" => No, _ => Allowed }, dc::fields::MultiArch) }
+        "Urgency" => { use dc::fields::Urgency::*; rt!(match js(&v["variant"]).as_str() { "Low" => Low, "Medium" => Medium, "High" => High, "Emergency" => Emergency, _ => Critical }, dc::fields::Urgency) }
+        "VersionConstraint" => { use dc::relations::VersionConstraint::*; rt!(match js(&v["variant"]).as_str() { "LessThan" => LessThan, "LessThanEqual" => LessThanEqual, "Equal" => Equal, "GreaterThan" => GreaterThan, _ => GreaterThanEqual }, dc::relations::VersionConstraint) }
+        "BuildProfile" => rt!(if js(&v["variant"]) == "Enabled" { dc::relations::BuildProfile::Enabled(js(&v["s"])) } else { dc::relations::BuildProfile::Disabled(js(&v["s"])) }, dc::relations::BuildProfile),
+        "Md5Checksum" => rt!(dc::fields::Md5Checksum { md5sum: js(&v["hash"]), size: v["size"].as_u64().unwrap_or(0) as usize, filename: js(&v["filename"]) }, dc::fields::Md5Checksum),
+        "Sha1Checksum" => rt!(dc::fields::Sha1Checksum { sha1: js(&v["hash"]), size: v["size"].as_u64().unwrap_or(0) as usize, filename: js(&v["filename"]) }, dc::fields::Sha1Checksum),
+        "Sha256Checksum" => rt!(dc::fields::Sha256Checksum { sha256: js(&v["hash"]), size: v["size"].as_u64().unwrap_or(0) as usize, filename: js(&v["filename"]) }, dc::fields::Sha256Checksum),
+        "Sha512Checksum" => rt!(dc::fields::Sha512Checksum { sha512: js(&v["hash"]), size: v["size"].as_u64().unwrap_or(0) as usize, filename: js(&v["filename"]) }, dc::fields::Sha512Checksum),
+        "PackageListEntry" => {
+            let mut e = dc::fields::PackageListEntry::new(&js(&v["package"]), &js(&v["package_type"]), &js(&v["section"]), prio(&v["priority"]));
+            if let Some(a) = v["extra"].as_array() { for kv in a { e.extra.insert(js(&kv[0]), js(&kv[1])); } }
+            rt!(e, dc::fields::PackageListEntry)
+        }
+        "File" => rt!(dc::changes::File { md5sum: js(&v["md5sum"]), size: v["size"].as_u64().unwrap_or(0) as usize, section: js(&v["section"]), priority: prio(&v["priority"]), filename: js(&v["filename"]) }, dc::changes::File),
+        "ParsedVcs" => {
+            let p = dc::vcs::ParsedVcs { repo_url: js(&v["repo_url"]), branch: jopt(&v["branch"]), subpath: jopt(&v["subpath"]) };
+            let t = p.to_string();
+            match dc::vcs::ParsedVcs::from_str(&t) {
+                Ok(w) => json!({"text": t, "ok": true, "eq": w.repo_url == p.repo_url && w.branch == p.branch && w.subpath == p.subpath, "text2": w.to_string()}),
+                Err(e) => json!({"text": t, "ok": false, "err": format!("{:?}", e)}),
+            }
+        }
+        "Vcs" => {
+            let x = match js(&v["variant"]).as_str() {
+                "Git" => dc::vcs::Vcs::Git { repo_url: js(&v["repo_url"]), branch: jopt(&v["branch"]), subpath: jopt(&v["subpath"]) },
+                "Bzr" => dc::vcs::Vcs::Bzr { repo_url: js(&v["repo_url"]), subpath: jopt(&v["subpath"]) },
+                "Hg" => dc::vcs::Vcs::Hg { repo_url: js(&v["repo_url"]) },
+                "Svn" => dc::vcs::Vcs::Svn { url: js(&v["repo_url"]) },
+                _ => dc::vcs::Vcs::Cvs { root: js(&v["repo_url"]), module: jopt(&v["module"]) },
+            };
+            let (name, t) = x.to_field();
+            match dc::vcs::Vcs::from_field(name, &t) {
+                Ok(w) => json!({"text": t, "name": name, "ok": true, "eq": format!("{:?}", w) == format!("{:?}", x), "text2": w.to_field().1}),
+                Err(e) => json!({"text": t, "name": name, "ok": false, "err": e}),
+            }
+        }
+        "Forwarded" => rt!(match js(&v["variant"]).as_str() { "No" => dep3::Forwarded::No, "NotNeeded" => dep3::Forwarded::NotNeeded, _ => dep3::Forwarded::Yes(js(&v["s"])) }, dep3::Forwarded),
+        "OriginCategory" => { use dep3::OriginCategory::*; rt!(match js(&v["variant"]).as_str() { "Backport" => Backport, "Vendor" => Vendor, "Upstream" => Upstream, _ => Other }, dep3::OriginCategory) }
+        "Origin" => rt!(if js(&v["variant"]) == "Commit" { dep3::Origin::Commit(js(&v["s"])) } else { dep3::Origin::Other(js(&v["s"])) }, dep3::Origin),
+        "AppliedUpstream" => rt!(if js(&v["variant"]) == "Commit" { dep3::AppliedUpstream::Commit(js(&v["s"])) } else { dep3::AppliedUpstream::Other(js(&v["s"])) }, dep3::AppliedUpstream),
+        "License" => rt!(match js(&v["variant"]).as_str() { "Name" => debian_copyright::License::Name(js(&v["name"])), "Text" => debian_copyright::License::Text(js(&v["text"])), _ => debian_copyright::License::Named(js(&v["name"]), js(&v["text"])) }, debian_copyright::License),
+        "RepositoryType" => rt!(if js(&v["variant"]) == "Binary" { apt_sources::RepositoryType::Binary } else { apt_sources::RepositoryType::Source }, apt_sources::RepositoryType),
+        "YesNoForce" => {
+            let x = match js(&v["variant"]).as_str() { "Yes" => apt_sources::YesNoForce::Yes, "No" => apt_sources::YesNoForce::No, _ => apt_sources::YesNoForce::Force };
+            let t = (&x).to_string();
+            match apt_sources::YesNoForce::from_str(&t) { Ok(w) => json!({"text": t, "ok": true, "eq": w == x, "text2": (&w).to_string()}), Err(e) => json!({"text": t, "ok": false, "err": format!("{:?}", e)}) }
+        }
+        "Signature" => rt!(if js(&v["variant"]) == "KeyBlock" { apt_sources::signature::Signature::KeyBlock(js(&v["s"])) } else { apt_sources::signature::Signature::KeyPath(js(&v["s"]).into()) }, apt_sources::signature::Signature),
+        other => json!({"error": format!("unknown codec type {}", other)}),
+    }
+}
+
+macro_rules! pp {
+    ($ty:ty, $t:expr) => { match <$ty as FromStr>::from_str($t) { Ok(w) => json!({"ok": true, "text": w.to_string()}), Err(_) => json!({"ok": false}) } };
+}
+/// C18 rejection clause: parse a text, print what was parsed
+fn op_codec_parse(req: &Value) -> Value {
+    use debian_control as dc;
+    let t = s(req, "s"); let t = t.as_str();
+    match req["type"].as_str().unwrap_or("") {
+        "Priority" => pp!(dc::fields::Priority, t), "MultiArch" => pp!(dc::fields::MultiArch, t), "Urgency" => pp!(dc::fields::Urgency, t),
+        "VersionConstraint" => pp!(dc::relations::VersionConstraint, t), "OriginCategory" => pp!(dep3::OriginCategory, t),
+        "RepositoryType" => pp!(apt_sources::RepositoryType, t),
+        "YesNoForce" => match apt_sources::YesNoForce::from_str(t) { Ok(w) => json!({"ok": true, "text": (&w).to_string()}), Err(_) => json!({"ok": false}) },
+        other => json!({"error": format!("unknown codec type {}", other)}),
     }
 }
